@@ -149,6 +149,12 @@ def o_roundtrip(rec: Recorder, case, soft=False):
         if not (a == b == exp):
             rec.fail(f"C15/tokens-differ/{fmt}", "object loaded back generates different codes", "roundtrip", case, [a, b], exp, soft=soft)
             return
+    if fmt == "uri" and otp.label:
+        # an explicitly passed label / issuer is the one written for this export
+        st, other = call(lambda: F.from_uri(otp.to_uri(label="other@example.org", issuer="Other Inc")))
+        if st == "err" or (other.label, other.issuer) != ("other@example.org", "Other Inc"):
+            rec.fail("C15/to-uri-arguments-ignored", "to_uri(label=, issuer=) does not write the label / issuer it was given", "roundtrip", case, repr(other) if st == "err" else (other.label, other.issuer), ("other@example.org", "Other Inc"), soft=soft)
+            return
     if fmt == "uri" and before["issuer"] and "issuer=" in ser:
         # the older provisioning form carries the issuer only as the label prefix ("Issuer:account", no issuer= parameter): same configuration
         head, _, query = ser.partition("?")
@@ -199,7 +205,8 @@ def o_corrupt(rec: Recorder, case, soft=False):
     from passlib.totp import TOTP
 
     src, kind = case["source"], case["kind"]
-    st, r = call(TOTP.from_source, src)
+    loader = {"from_uri": TOTP.from_uri, "from_json": TOTP.from_json, "from_dict": TOTP.from_dict}.get(case.get("via"), TOTP.from_source)
+    st, r = call(loader, src)
     want = NotImplementedError if case.get("expect") == "NotImplementedError" else ValueError
     if st == "ok":
         rec.fail(f"C15/corrupt-accepted/{kind}", f"inconsistent or incomplete TOTP source accepted ({kind})", "corrupt", case, _state(r), want.__name__, soft=soft)
@@ -368,10 +375,27 @@ def corrupted_sources():
             res.append({"kind": kind + "/json", "source": json.dumps(src), "expect": expect})
         elif src.startswith("otpauth"):
             res.append({"kind": kind + "/bytes", "source": src.encode(), "expect": expect})
+    # the dedicated loaders refuse what is not theirs: other URI schemes, JSON values that are not objects
+    tail = good[len("otpauth"):]
+    for scheme in ("http", "https", "otpauths", "totp", "", "file"):
+        res.append({"kind": f"uri-scheme/{scheme or 'none'}", "source": (scheme + tail) if scheme else tail[1:], "expect": "ValueError", "via": "from_uri"})
+    for text in ("123456", "null", "true", "[]", '"type"', '["type"]', "{}", '{"v": 1}', "1.5"):
+        for via in ("from_json", None):
+            res.append({"kind": f"json-not-an-object/{text}", "source": text, "expect": "ValueError", "via": via})
+    for obj in (123456, None, True, [], "type", ["type"]):
+        res.append({"kind": f"dict-not-a-dict/{obj!r}", "source": obj, "expect": "ValueError", "via": "from_dict"})
     return res
 
 
 def t_corrupt(rec, seed, tier):
+    from passlib.totp import TOTP
+
+    # factory defaults are validated like instance values: a default issuer / label that could never be written to a URI is refused up front
+    for kw in ({"issuer": "a:b"}, {"issuer": ":"}, {"digits": 11}, {"digits": 5}, {"period": 0}, {"alg": "sha3"}):
+        rec.ev()
+        st, r = call(TOTP.using, **kw)
+        if not (st == "err" and isinstance(r, (ValueError, TypeError))):
+            rec.fail(f"C15/factory-default-unchecked/{sorted(kw)[0]}", f"TOTP.using({kw}) is accepted", "corrupt", {"kind": "factory-default", "source": "otpauth://totp/x?secret=AAAA", "kw": kw}, repr(r), "ValueError", soft=True)
     for case in corrupted_sources():
         rec.ev()
         rec.nt("corrupt", case["kind"])
